@@ -441,3 +441,20 @@ func Logf(format string, a ...any) {
 
 // Tracing reports whether trace logging is on.
 func Tracing() bool { return cur != nil && cur.opt.Trace }
+
+// Backoff models a thread that sleeps for a while before retrying (a timer-based
+// back-off whose exact duration is irrelevant): it is rescheduled only after every other
+// runnable thread has run as far as it can.  Without this a retry loop would spin for
+// ever under a schedule that demoted the thread it is waiting for.
+func Backoff(label string) {
+	s := cur
+	if s == nil {
+		return
+	}
+	t := s.running
+	old := t.prio
+	s.minPrio--
+	t.prio = s.minPrio
+	s.park(label, nil)
+	t.prio = old
+}
